@@ -22,8 +22,9 @@ abbrev Cls  := Nat          -- a class object (identity); the lookup cache is ke
 abbrev Name := List Char    -- `__name__`, template stems, filter / test / global names
 abbrev Path := List Char    -- a template name as listed by a Jinja loader (relative, `/`-separated)
 
-/-- A class hierarchy as the loader sees it: `cls.__bases__` without `object` (in order) and `cls.__name__`.
-Two classes may share a name. -/
+/-- A class hierarchy as the search sees it: the classes it goes on to from `cls` (`cls.__bases__` without
+`object`, in order; none from `pydsdl.Any` in the repaired code) and `cls.__name__`.  Two classes may share a
+name. -/
 structure Hier where
   bases : Cls → List Cls
   name  : Cls → Name
@@ -154,6 +155,31 @@ def mfind (fs pkg : Option Templates) (n : Name) : Option Path :=
   | some p => some p
   | none => pkg.bind (tfind · n)
 
+/-- Every class has at most one base other than `object`. -/
+def SingleInheritance (H : Hier) : Prop := ∀ c, (H.bases c).length ≤ 1
+
+/-- `rank` strictly decreases along `__bases__` (so the hierarchy has no cycle). -/
+def RankedBy (H : Hier) (rank : Cls → Nat) : Prop := ∀ c b, b ∈ H.bases c → rank b < rank c
+
+def Acyclic (H : Hier) : Prop := ∃ rank, RankedBy H rank
+
+/-- The template named after the nearest class of the complete chain of `c` (self first) for which `find`
+has a template. -/
+def nearestAncestor (H : Hier) (find : Name → Option Path) (rank : Cls → Nat) (c : Cls) : Option Path :=
+  nearest H find (chain H (rank c + 1) c)
+
+/-- The caches a loader object can hold: empty, or what any earlier look-up (any class, any fuel) left. -/
+inductive Reachable (H : Hier) (fs pkg : Option Templates) : Cache → Prop
+  | empty : Reachable H fs pkg []
+  | step {cache fuel c r cache'} : Reachable H fs pkg cache →
+      lookup H fuel cache fs pkg c = some (r, cache') → Reachable H fs pkg cache'
+
+/-- The same for the code before the repair. -/
+inductive ReachableBeforeFix (H : Hier) (fs pkg : Option Templates) : Cache → Prop
+  | empty : ReachableBeforeFix H fs pkg []
+  | step {cache fuel c r cache'} : ReachableBeforeFix H fs pkg cache →
+      lookupBeforeFix H fuel cache fs pkg c = some (r, cache') → ReachableBeforeFix H fs pkg cache'
+
 /-! ## `get_source` -/
 
 inductive Origin | user | builtin
@@ -188,21 +214,23 @@ def getSource (fs : Option (List Store)) (pkg : Option Store) (t : Path) : Optio
 /-- The class table: `(name, names of the bases)`. -/
 abbrev Table := List (Name × List Name)
 
-def genTable : Table :=
-  Gen.PydsdlClasses.classes.map fun e => (e.1.toList, e.2.map String.toList)
+def genTable : Table := Gen.PydsdlClasses.classes
 
 def indexOf : Table → Name → Option Nat
   | [], _ => none
   | (n, _) :: rest, k => if n = k then some 0 else (indexOf rest k).map (· + 1)
 
-/-- The table as a hierarchy: class = row index. -/
-def Hier.ofTable (t : Table) : Hier where
+/-- The table as the hierarchy the search walks: class = row index; the search does not go on from a class
+named in `stops` (`if current_search_type is pydsdl.Any: continue`). -/
+def Hier.ofTable (t : Table) (stops : List Name) : Hier where
   bases c := match t[c]? with
-    | some e => e.2.filterMap (indexOf t)
+    | some e => if stops.contains e.1 then [] else e.2.filterMap (indexOf t)
     | none => []
   name c := match t[c]? with
     | some e => e.1
     | none => []
+
+def genStops : List Name := Gen.PydsdlClasses.searchStops
 
 def basesOf : Table → Name → List Name
   | [], _ => []
@@ -224,8 +252,8 @@ def lower (n : Name) : Name := n.map Char.toLower
 (if longer than 5). -/
 def aliasOf (n : Name) : Name :=
   let l := lower n
-  if l.length > 4 ∧ "type".toList.isSuffixOf l then l.take (l.length - 4)
-  else if l.length > 5 ∧ "field".toList.isSuffixOf l then l.take (l.length - 5)
+  if l.length > 4 ∧ ['t', 'y', 'p', 'e'].isSuffixOf l then l.take (l.length - 4)
+  else if l.length > 5 ∧ ['f', 'i', 'e', 'l', 'd'].isSuffixOf l then l.take (l.length - 5)
   else l
 
 /-- `_create_instance_tests_for_type(root)`: `(test name, class)` in insertion order (a later pair with the
@@ -274,10 +302,10 @@ def evalTest (t : Table) (tests : List (Name × Name)) (redirect : Name) (testNa
   | none => .error .noSuchTest
   | some root => fieldIsInstance t redirect root vcls dt
 
-def genRoots : List Name := Gen.PydsdlClasses.instanceTestRoots.map String.toList
-def genRedirect : Name := Gen.PydsdlClasses.redirectClass.toList
+def genRoots : List Name := Gen.PydsdlClasses.instanceTestRoots
+def genRedirect : Name := Gen.PydsdlClasses.redirectClass
 def genTests : Option (List (Name × Name)) := allTests genTable genRoots
-def genCodeTests : List (Name × Name) := Gen.PydsdlClasses.codeTests.map fun e => (e.1.toList, e.2.toList)
+def genCodeTests : List (Name × Name) := Gen.PydsdlClasses.codeTests
 
 /-! ## The environment -/
 
@@ -326,13 +354,13 @@ def dropPrefix? (pre n : Name) : Option Name :=
 
 /-- `LanguageEnvironment._parse_callable_name`: the name a callable is registered under. -/
 def conventionalName (n : Name) : Name :=
-  match dropPrefix? Gen.PydsdlClasses.testPrefix.toList n with
+  match dropPrefix? Gen.PydsdlClasses.testPrefix n with
   | some r => r
   | none =>
-    match dropPrefix? Gen.PydsdlClasses.filterPrefix.toList n with
+    match dropPrefix? Gen.PydsdlClasses.filterPrefix n with
     | some r => r
     | none =>
-      match dropPrefix? Gen.PydsdlClasses.usesPrefix.toList n with
+      match dropPrefix? Gen.PydsdlClasses.usesPrefix n with
       | some r => r
       | none => n
 
@@ -388,7 +416,7 @@ def addPost (allow : Bool) : Env → List (Kind × Name × Owner) → Except Err
     | .ok t => addPost allow { e with tests := t } rest
     | .error x => .error x
 
-def nowUtc : Name := "now_utc".toList
+def nowUtc : Name := ['n', 'o', 'w', '_', 'u', 't', 'c']
 
 /-- Globals once the user's have been taken: reserved namespaces, `now_utc`, language globals. -/
 def builtinGlobals (cfg : EnvCfg) (g : Coll) : Coll :=
